@@ -8,6 +8,7 @@ from lcmsa import rules_splat as splat
 from lcmsa import rules_kernel as ker
 from lcmsa import rules_per as per
 from lcmsa import rules_qa as qa
+from lcmsa import rules_sig as sig
 from lcmsa import rules_sim as sim
 
 TRUSTED_COMMON = [
@@ -150,3 +151,13 @@ PROPERTIES["C12"]["rules"] += [guard.filter_params_guard]
 
 PROPERTIES["C18"]["rules"] += [qa.qa_siblings, qa.qa_value_axes, ker.ker_modeldags, bel.masked_reduction]
 PROPERTIES["C18"]["explanation"] += " Choice axes located by the discrete problem == dense choice axes of the array (R2.QA3/QA4); policy twin (ALG2)."
+
+for _p in ("C01", "C02", "C03", "C06", "C12", "C13", "C14", "C17"):
+    PROPERTIES[_p]["rules"] += [sig.call_arity]
+    PROPERTIES[_p]["explanation"] += " Every statically resolved internal call binds exactly its callee's parameters (R10.ARITY)."
+for _p in ("C01", "C09", "C10", "C12"):
+    PROPERTIES[_p]["rules"] += [sig.u_and_f_signature]
+PROPERTIES["C01"]["rules"] += [ker.ker_dispatchers, ker.ker_funcrep, ker.ker_funcrep_guard, ker.ker_statespace]
+PROPERTIES["C02"]["rules"] += [ker.ker_dispatchers]
+PROPERTIES["C08"]["rules"] += [ker.ker_dispatchers, ker.ker_argmax]
+PROPERTIES["C01"]["explanation"] += " Signature of u_and_f (prefix filter, by-name rebinding) (R10.SIG); dispatchers and value-function representation agree with their reference forms (KER)."
